@@ -5,6 +5,7 @@
 //! must equal the model, and every extracted observable must equal the model's.
 
 pub mod edge;
+pub mod owned;
 
 use num_traits::{One, Zero};
 use vek::mat::repr_c::column_major as cm;
@@ -459,6 +460,16 @@ pub fn property() -> Property {
             name: "programs-sym",
             about: "random programs (0-12 steps over 26 operations: new, index, index_mut, transposed, transpose, map, map2, apply, apply2, layout conversion, size conversion, flat/nested row/col array round trips and cross pairs, diagonal, with_diagonal, broadcast_diagonal, map_rows/map_cols, slices + OpenGL transpose flag, mutable slices (contents and length), Display/counts/Default, index pairs with a component out of range, identity/zero and the One/Zero trait impls) run side by side on a row-major and a column-major matrix of pairwise distinct opaque terms and on an array model",
             kind: Kind::Tape { len: 96, quick: 400_000, thorough: 8_000_000, f: programs },
+        },
+        Check {
+            name: "programs-owned",
+            about: "the same side-by-side programs (0-12 steps over 24 operations: new, index, index_mut, transposed, transpose, map / map2 with consuming closures, layout conversion, all six size conversions, flat/nested row/col array round trips and cross pairs, from_{row,col}_array(s) of fresh arrays, diagonal, trace, identity/zero/Default/Zero, map_rows/map_cols, slices + OpenGL flag, mutable slices, Display plain and under flags, Clone/PartialEq, and - Copy domains only - apply, apply2, with_diagonal, broadcast_diagonal) generic over the element type and run in eight further element domains that differ in drop glue, Copy, size and alignment: String, Box<u64>, Rc<u64>, Vec<u64> (non-Copy, mem::needs_drop), a Clone-only u64, u16, u128 (align 16), [u64; 4]; elements are pairwise distinct values of the ring Z/2^64, built and read through the public fields by cloning",
+            kind: Kind::Tape { len: 96, quick: 60_000, thorough: 3_000_000, f: owned::programs },
+        },
+        Check {
+            name: "element-domains",
+            about: "the element domains of programs-owned have the drop glue, sizes and alignments their table claims",
+            kind: Kind::Index { total: 1, quick: 1, thorough: 1, f: owned::domain_facts },
         },
         Check {
             name: "index-bounds",
